@@ -7,28 +7,38 @@ import (
 	"github.com/cloudwego/frugal/internal/vrt"
 )
 
-// ---- C09(1): bitset lemma, arbitrary contents, arbitrary indices ----
-
+// ---- C09(1): presence-set lemma. The word index is case-split (all 1024 words x 4 positions of the second
+// index relative to it), bit positions and the contents of the words involved are solver variables:
+// set(i) makes test(i) true and leaves every other bit alone, unset(i) makes it false and leaves the rest alone,
+// no access leaves the array (the engine's bounds monitor).
 func VerifBitsetLemma() {
 	var s bitset
-	vrt.HavocBytes("bits", unsafe.Pointer(&s), int(unsafe.Sizeof(s)))
-	i := vrt.U16("i")
-	j := vrt.U16("j")
+	x := vrt.Choice("word(i)", 1024)
+	var y int
+	switch vrt.Choice("word(j)", 4) {
+	case 0:
+		y = x
+	case 1:
+		y = (x + 1) % 1024
+	case 2:
+		y = 0
+	default:
+		y = 1023
+	}
+	vrt.HavocBytes("bits.x", unsafe.Pointer(&s.data[x]), 8)
+	vrt.HavocBytes("bits.y", unsafe.Pointer(&s.data[y]), 8)
+	i := uint16(x)<<6 | uint16(vrt.U8("i.lo")&63)
+	j := uint16(y)<<6 | uint16(vrt.U8("j.lo")&63)
 	oldj := s.test(j)
-	op := vrt.Choice("op", 2)
-	if op == 0 {
+	if vrt.Choice("op", 2) == 0 {
 		s.set(i)
-		vrt.Check(s.test(i), "set(i) then test(i)")
-		if j != i {
-			vrt.Check(s.test(j) == oldj, "set(i) leaves j!=i alone")
-		}
+		vrt.Check(s.test(i), "C09 set(i) then test(i)")
+		vrt.Check(vrt.Implies(j != i, s.test(j) == oldj), "C09 set(i) leaves every other bit alone")
 		vrt.Reach("set")
 	} else {
 		s.unset(i)
-		vrt.Check(!s.test(i), "unset(i) then !test(i)")
-		if j != i {
-			vrt.Check(s.test(j) == oldj, "unset(i) leaves j!=i alone")
-		}
+		vrt.Check(!s.test(i), "C09 unset(i) then !test(i)")
+		vrt.Check(vrt.Implies(j != i, s.test(j) == oldj), "C09 unset(i) leaves every other bit alone")
 		vrt.Reach("unset")
 	}
 }
@@ -246,4 +256,43 @@ func VerifDescMapProtocol() {
 		vrt.Check(m.Get(k) == want(k), "C08 Get returns the descriptor last stored for exactly that key")
 	}
 	vrt.Reach("end")
+}
+
+// VerifOnPublish (C08): called by the engine right after every atomic Store into the descriptor map, with the
+// pointer just published. Everything a lock-free reader can reach from it through the edges the codec follows
+// must be complete at that moment: every struct type node carries its descriptor ("publish only after nested
+// descriptors are complete"), recursively.
+func VerifOnPublish(p unsafe.Pointer) {
+	items := *(*[]mapStructDescItem)(p)
+	seen := map[*structDesc]bool{}
+	for i := range items {
+		vrt.Check(items[i].sd != nil, "C08 a published slot holds no nil descriptor")
+		verifComplete(items[i].sd, seen)
+	}
+}
+
+func verifComplete(sd *structDesc, seen map[*structDesc]bool) {
+	if sd == nil || seen[sd] {
+		return
+	}
+	seen[sd] = true
+	for _, f := range sd.fields {
+		verifCompleteType(f.Type, seen)
+	}
+}
+
+func verifCompleteType(t *tType, seen map[*structDesc]bool) {
+	if t == nil {
+		return
+	}
+	switch t.T {
+	case tSTRUCT:
+		vrt.Check(t.Sd != nil, "C08 descriptor published while a struct type node reachable from it has no descriptor yet")
+		verifComplete(t.Sd, seen)
+	case tLIST, tSET:
+		verifCompleteType(t.V, seen)
+	case tMAP:
+		verifCompleteType(t.K, seen)
+		verifCompleteType(t.V, seen)
+	}
 }
